@@ -340,6 +340,72 @@ pub fn generate(group: &str, r: &mut Rng, n: usize) -> Vec<Value> {
                 out.push(json!({"ev":"seq","case":format!("d-relax-seq-{k}"),"src":"drive","in":{"inst":inst.json,"ops":ops}}));
             }
         }
+        "mixed" => {
+            // histories over the whole transformation API: every step is judged by its own clauses against the instance the
+            // previous steps produced.  The driver tracks which of the initial variables are still free; arguments that
+            // depend on variables created on the way (slack, log-encoding bits) are completed by the harness.
+            for k in 0..n {
+                let int_only = r.chance(3, 4);
+                let inst = rand_instance(r, &InstOpts { max_deg: 2, int_only, boxed: true, with_deps: false, with_removed: true, max_cons: 3, coef_den: 1 });
+                let mut free: Vec<u64> = inst.vars.iter().map(|v| v.id).filter(|id| inst.prefixed.as_ref().map(|p| p.0 != *id).unwrap_or(true)).collect();
+                // the driver's own bookkeeping of which list a constraint is in (only used to aim the arguments)
+                let mut act: Vec<u64> = inst.active.clone();
+                let mut rem: Vec<u64> = inst.removed.clone();
+                let mut j = inst.json.clone();
+                for c in j["constraints"].as_array_mut().unwrap() {
+                    if r.chance(2, 3) { c["eq"] = json!("le"); }
+                }
+                let aim = |r: &mut Rng, pref: &Vec<u64>, other: &Vec<u64>| -> u64 {
+                    if !pref.is_empty() && r.chance(3, 4) { *r.pick(pref) } else if !other.is_empty() && r.chance(2, 3) { *r.pick(other) } else { 99 }
+                };
+                let all_ids: Vec<u64> = inst.vars.iter().map(|v| v.id).collect();
+                let mut ops = vec![];
+                let len = 2 + r.below(6);
+                let val = |r: &mut Rng, id: u64| inst.vars.iter().find(|v| v.id == id).unwrap().value(r);
+                for _ in 0..len {
+                    match r.below(12) {
+                        0 | 1 => {
+                            let st: Vec<(u64, Value)> = free.iter().map(|id| (*id, val(r, *id))).collect();
+                            ops.push(json!({"op":"evaluate","st":st_json(&st),"fill":r.below(1 << 20)}));
+                        }
+                        2 if free.len() >= 2 => {
+                            // fix one or two free variables
+                            r.shuffle(&mut free);
+                            let m = 1 + r.below(2) as usize;
+                            let fixed: Vec<u64> = free.drain(..m.min(free.len() - 1)).collect();
+                            let st: Vec<(u64, Value)> = fixed.iter().map(|id| (*id, val(r, *id))).collect();
+                            ops.push(json!({"op":"inst_partial","st":st_json(&st)}));
+                        }
+                        3 if free.len() >= 2 => {
+                            // replace one free variable by a linear function of the other free ones
+                            r.shuffle(&mut free);
+                            let x = free.remove(0);
+                            let gr = FnGen { ids: free.clone(), coef_den: 1, coef_max: 2, max_terms: 2, max_deg: 1 };
+                            ops.push(json!({"op":"inst_subst","repl":[[x, gr.linear(r)]]}));
+                        }
+                        4 => {
+                            let c = aim(r, &act, &rem);
+                            if let Some(i) = act.iter().position(|x| *x == c) { act.remove(i); rem.push(c); }
+                            ops.push(json!({"op":"relax","cid":c,"reason":format!("why{}", r.below(2)),"rparams":[]}));
+                        }
+                        5 => {
+                            let c = aim(r, &rem, &act);
+                            if let Some(i) = rem.iter().position(|x| *x == c) { rem.remove(i); act.push(c); }
+                            ops.push(json!({"op":"restore","cid":c}));
+                        }
+                        6 => ops.push(json!({"op":"as_min"})),
+                        7 => ops.push(json!({"op":"log_encode","vid":*r.pick(&all_ids)})),
+                        8 => ops.push(json!({"op":"slack_convert","cid":aim(r, &act, &rem),"max":*r.pick(&[2u64, 10, 1000]),"points":"auto"})),
+                        9 => ops.push(json!({"op":"slack_add","cid":aim(r, &act, &rem),"ub":1 + r.below(4),"points":"auto"})),
+                        10 => ops.push(json!({"op":*r.pick(&["penalty", "uniform_penalty", "used_ids", "validate"])})),
+                        _ => ops.push(json!({"op":*r.pick(&["pubo", "qubo", "typed"])})),
+                    }
+                }
+                let st: Vec<(u64, Value)> = free.iter().map(|id| (*id, val(r, *id))).collect();
+                ops.push(json!({"op":"evaluate","st":st_json(&st),"fill":r.below(1 << 20)}));
+                out.push(json!({"ev":"seq","case":format!("d-mixed-seq-{k}"),"src":"drive","in":{"inst":j,"ops":ops}}));
+            }
+        }
         "penalty" => {
             for k in 0..n {
                 let inst = rand_instance(r, &DEFAULT);
@@ -414,6 +480,17 @@ pub fn generate(group: &str, r: &mut Rng, n: usize) -> Vec<Value> {
                     1 => { v["kind"] = json!("integer"); v["bound"] = json!([]); }
                     2 => { v["kind"] = json!("binary"); v["bound"] = json!([{"lo": [0,1], "hi": [1,1]}]); }
                     3 => { v["kind"] = json!("integer"); v["bound"] = json!([{"lo": [1,2], "hi": [3,4]}]); } // no integer inside
+                    4 if !big => {
+                        // ends a grid step (2^-26) off an integer, either side
+                        const U: i64 = 1 << 26;
+                        let a = r.range(-6, 6);
+                        let b = a + r.range(0, 9);
+                        let (dl, dh) = (*r.pick(&[-1i64, 1]), *r.pick(&[-1i64, 1]));
+                        if a * U + dl <= b * U + dh {
+                            v["kind"] = json!("integer");
+                            v["bound"] = json!([{"lo": [a * U + dl, U], "hi": [b * U + dh, U]}]);
+                        }
+                    }
                     _ => { v["kind"] = json!("integer"); v["bound"] = json!([{"lo": lo, "hi": hi}]); }
                 }
                 let target = if r.chance(1, 12) { 77 } else { vid };
@@ -436,6 +513,14 @@ pub fn generate(group: &str, r: &mut Rng, n: usize) -> Vec<Value> {
                     let mut terms = vec![];
                     let mut raw: Vec<(u64, i64)> = vec![];
                     for id in &ids { if r.chance(2, 3) { let p = r.range(-2 * den, 2 * den); raw.push((*id, p)); terms.push(json!({"id": id, "c": red(p)})); } }
+                    // un-normalised message: the same variable listed twice (the function is the sum of its listed terms)
+                    if !raw.is_empty() && r.chance(1, 4) {
+                        let id = raw[r.below(raw.len() as u64) as usize].0;
+                        let p = r.range(-2 * den, 2 * den);
+                        raw.push((id, p));
+                        terms.push(json!({"id": id, "c": red(p)}));
+                        if r.chance(1, 2) { terms.rotate_left(1); }
+                    }
                     let f = if r.chance(1, 3) && ids.len() >= 2 {
                         json!({"kind":"quadratic","rows":[ids[0]],"columns":[ids[1]],"values":[rc(r)],"linear":[{"kind":"linear","terms":terms,"constant":rc(r)}]})
                     } else if r.chance(1, 4) {
